@@ -107,7 +107,7 @@ def deps_of(o):
 def case_to_coq(c):
     o = c["obs"]
     if c["fam"] == "inv":
-        return "inv_case %d %s" % (c["id"], L(S(f) for f in o["fields"]))
+        return "inv_case %d %s" % (c["eid"], L(S(f) for f in o["fields"]))
     e = c["env"]
     env = "(Build_env %s %s %s %s)" % (B(e["plus"]), B(e["ap"]), B(e["dos"]), B(e["fix"]))
     revs = L("(Build_rev %s %s %s %s %s %s)" % (KIND[r["kind"]], S(r["ns"]), S(r["name"]), B(r["direct"]), L(S(v) for v in r["via"]),
@@ -115,8 +115,28 @@ def case_to_coq(c):
     pf = L("(%s, %s, %s)" % (S(p["skel"]["ns"]), S(p["skel"]["name"]), B(p["found"])) for p in o["pols"])
     evs = L("(Build_ev %s %s %s %s %s %s %s)" % ((KIND[x["kind"]],) + tuple(S(t) for t in x["key"].split("/", 1)) +
                                                   (OP[x["op"]], B(x["relevant"]), B(x["regen"]), B(x["stale"]))) for x in events_of(o))
-    return "res_case %d %s %s %s %s %s %s %s %s" % (c["id"], env, cq_cluster(c), cq_resource(o["skel"]), L(cq_dep(d) for d in deps_of(o)),
+    return "res_case %d %s %s %s %s %s %s %s %s" % (c["eid"], env, cq_cluster(c), cq_resource(o["skel"]), L(cq_dep(d) for d in deps_of(o)),
                                                     L(cq_dep(d) for d in o["lookups"]), revs, pf, evs)
+
+
+def expand(cases):
+    """one evaluation unit per served resource: a case of class multi serves 2-3 resources of different kinds
+    in one Configuration and carries one observation per resource; the unit keeps the whole input (it is the replay)"""
+    out = []
+    for c in cases:
+        subs = (c.get("obs") or {}).get("multi")
+        if c.get("class") == "multi" and subs:
+            for k, sub in enumerate(subs):
+                u = dict(c)
+                u["obs"] = sub
+                u["eid"] = c["id"] * 4 + k + 1
+                u["sub"] = sub.get("kind")
+                out.append(u)
+        else:
+            u = dict(c)
+            u["eid"] = c["id"] * 4
+            out.append(u)
+    return out
 
 
 def usable(c):
@@ -236,7 +256,7 @@ def positions(sk, kind, key):
 
 
 def judge(run, cases, res):
-    byid = {c["id"]: c for c in cases}
+    byid = {c["eid"]: c for c in cases}
     for c in cases:
         o = c.get("obs") or {}
         if c["fam"] == "res" and (o.get("panic") or o.get("error")):
@@ -248,17 +268,19 @@ def judge(run, cases, res):
     for row in res:
         cid, agree, spec, nontrivial, ndeps = row[:5]
         c = byid[cid]
+        cid = c["id"]
         if c["fam"] == "inv":
             run.add_obligation(bool(agree), "field-inventory",
                                "reference-bearing fields found by reflection %s differ from Refs.Model.inventory" % c["obs"]["fields"])
             run.cov["inventory_fields"] = ndeps
             continue
         o = c["obs"]
-        canon = {k: c.get(k) for k in ("class", "env", "cluster", "ing", "minions", "rival", "vs", "ts")}
+        canon = {k: c.get(k) for k in ("class", "sub", "env", "cluster", "ing", "minions", "rival", "vs", "ts")}
         run.count_case(canon, bool(nontrivial))
         run.cov["traces_validated_against_impl"] += 1
         by = run.cov.setdefault("by_class", {})
-        by[c["class"]] = by.get(c["class"], 0) + 1
+        cls = c["class"] + (":" + c["sub"] + (":shared-name" if len({(c.get(k) or {}).get("name") for k in ("ing", "vs", "ts") if c.get(k)}) == 1 else ":distinct-names") if c.get("sub") else "")
+        by[cls] = by.get(cls, 0) + 1
         run.cov["dependencies_observed"] = run.cov.get("dependencies_observed", 0) + len(deps_of(o))
         run.cov["model_dependencies"] = run.cov.get("model_dependencies", 0) + ndeps
         run.cov["reverse_lookups_compared"] = run.cov.get("reverse_lookups_compared", 0) + len(o["rev"])
@@ -325,7 +347,7 @@ def ensure_built():
 
 
 def check(run):
-    n = 700 if run.tier == "quick" else 5000
+    n = 600 if run.tier == "quick" else 5000
     ensure_built()
     run.proof_obligations()
     binary = C.go_build("c15")
@@ -334,7 +356,7 @@ def check(run):
                             env={"VERIF_REPO_DIR": C.REPO})
     if rc != 0:
         raise C.TieBroken("c15 harness failed rc=%d: %s" % (rc, log[-1500:]))
-    cases = C.read_jsonl(out)
+    cases = expand(C.read_jsonl(out))
     shard = 200
     for k in range(0, len(cases), shard):
         part = cases[k:k + shard]
@@ -345,7 +367,8 @@ def check(run):
                     "unreachable": [r for r in c["obs"]["rev"] if r["dep"] and not (r["direct"] or r["via"])][:3]}
         run.sample(s)
     run.cov["rule"] = ("one served resource per case (VirtualServer with 1-3 upstreams/routes and 0-3 VirtualServerRoutes in the same or another "
-                       "namespace; TransportServer; Ingress with TLS/annotations/default+path backends and an optional rival owning a host; master with "
+                       "namespace; TransportServer; class multi: 2-3 served resources of different kinds in one Configuration that share namespace and "
+                       "name (control: distinct names), VirtualServer host sorting before or after the Ingress hosts, each resource observed separately; Ingress with TLS/annotations/default+path backends and an optional rival owning a host; master with "
                        "1-3 minions incl. contested paths) over a random cluster of 2 namespaces x (4 services, 3 secrets, 4 policies of all kinds incl. "
                        "invalid / wrong class, 2 AP policies, 2 AP log confs, 2 DosProtectedResources) with missing and unusable objects; NGINX OSS / Plus / "
                        "Plus+AppProtect+DoS.  Per case: (a) the real createExtendedResources with recording stores, and again after deleting / changing / repairing / "
@@ -362,8 +385,8 @@ def check(run):
         "pods (subselector, health checks) are consulted by create*Ex but are not among the kinds C15 names; not modelled",
         "second-level hops inside appprotectdos.Configuration (DosPolicy / DosLogConf -> DosProtectedResource) and App Protect user signatures "
         "are not modelled and not driven; informer resync as a safety net is not modelled",
-        "one served resource (plus its minions / routes, optionally a rival Ingress) per Configuration: syncEndpointSlices updates all found "
-        "resources of a class as soon as one requires it, so with several resources [reaches] is a lower bound",
+        "at most one served resource of each kind per Configuration (plus minions / routes / a rival Ingress): syncEndpointSlices updates all found "
+        "resources of a class as soon as one requires it, so with several resources of one class [reaches] is a lower bound",
     ]
 
 
@@ -374,7 +397,7 @@ def replay(run, path):
     rc, log = C.run_harness(binary, ["-replay", path, "-out", out], timeout=600, env={"VERIF_REPO_DIR": C.REPO})
     if rc != 0:
         raise C.TieBroken("c15 harness failed on replay: %s" % log[-1500:])
-    cases = C.read_jsonl(out)
+    cases = expand(C.read_jsonl(out))
     res = evaluate(run, cases, "replay")
     rows = {r[0]: r for r in res}
     for c in cases:
@@ -382,7 +405,7 @@ def replay(run, path):
         if c["fam"] == "inv":
             print("replay case %d: field inventory %s" % (c["id"], o["fields"]))
             continue
-        r = rows.get(c["id"])
+        r = rows.get(c["eid"])
         print("replay case %d (%s): impl served=%s resource=%s dependencies=%s" % (c["id"], c["class"], o.get("served"), o.get("res_key"),
                                                                                  json.dumps(deps_of(o)) if o.get("served") else "-"))
         if o.get("served"):
